@@ -105,7 +105,10 @@ def FA(sorts, body, pats=None):
     if pats is not None:
         p = pats(*vs)
         if p:
-            return ForAll(vs, b, patterns=p)
+            try:
+                return ForAll(vs, b, patterns=p)
+            except z3.Z3Exception:
+                pass        # (a trigger containing arithmetic is not a valid pattern: let the solver choose)
     return ForAll(vs, b)
 
 
